@@ -249,7 +249,13 @@ def rule_templates(ctx, repo):
             parg = None
             for a in call.args:
                 if isinstance(a, ast.Subscript) and norm(a.value) == var and isinstance(a.slice, ast.Slice):
-                    parg = (repo.fold(a.slice.lower, f.module), repo.fold(a.slice.upper, f.module))
+                    # the matcher pins the script length: absent bounds and bounds past the end are the ends
+                    lo__ = 0 if a.slice.lower is None else repo.fold(a.slice.lower, f.module)
+                    hi__ = length if a.slice.upper is None else repo.fold(a.slice.upper, f.module)
+                    if a.slice.step is None and isinstance(lo__, int) and isinstance(hi__, int) and not isinstance(lo__, bool):
+                        lo__ = max(0, length + lo__) if lo__ < 0 else min(lo__, length)
+                        hi__ = max(0, length + hi__) if hi__ < 0 else min(hi__, length)
+                    parg = (lo__, hi__)
             pos = [k for k, v in enumerate(tpl) if v == 'P']
             if parg != (pos[0], pos[-1] + 1):
                 reasons.append('payload slice %s, placeholder at [%d:%d]' % (parg, pos[0], pos[-1] + 1))
@@ -283,6 +289,10 @@ def rule_templates(ctx, repo):
                 if isinstance(a, ast.Subscript) and norm(a.value) == var and isinstance(a.slice, ast.Slice):
                     lo_, hi_ = repo.fold(a.slice.lower, f.module), repo.fold(a.slice.upper, f.module)
                     t_ = norm(test)
+                    if a.slice.upper is None and a.slice.step is None:
+                        hi_ = 1 << 30  # to the end of the script, whose length the predicate pins
+                    if a.slice.lower is None:
+                        lo_ = 0
                     where = None
                     if 'is_witness_v0_nested_keyhash' in t_ or 'is_witness_v0_nested_scripthash' in t_:
                         where = 3
